@@ -61,6 +61,8 @@ def sym(e, env, fns, depth=0):
             if len(rets) == 1:
                 return sym(rets[0]["e"], {"this->first": r[1], "this->last": r[2]}, fns, depth + 1)
         return None
+    if k == "un" and e.get("op") in ("&", "*"):
+        return sym(e.get("e"), env, fns, depth + 1)       # (&x)->m after a helper was spliced in: the object itself
     if k == "mem":
         b = sym(e.get("base"), env, fns, depth + 1)
         if b and b[0] == "range":
@@ -72,10 +74,12 @@ def index_queue_rules(rep, rid):
     """R1/R2 of the index queue; also used as C11.R6"""
     D = load(rep)
     helpers = {}
-    for f in D.find("^" + CIQ + r"::range::(increment_first|decrement_last|empty)$", pattern=False):
-        helpers[f.qname.rsplit("::", 1)[-1]] = f
-    if len(helpers) < 3:
-        raise AnalysisBroken("contiguous_index_queue::range helpers not instantiated")
+    # the small member functions of the private range struct (whatever they are called) are evaluated symbolically
+    for f in D.find("^" + CIQ + r"::range::\w+$", pattern=False):
+        if f.kind not in ("ctor", "dtor") and f.parent == -1:
+            helpers[f.qname.rsplit("::", 1)[-1]] = f
+    # (helpers introduced or renamed after the reference tree are spliced into the pops and need no entry here)
+    RNG = None
     for name in ("pop_left", "pop_right"):
         fs = D.find("^" + CIQ + "::" + name + "$", pattern=False)
         if not fs:
@@ -87,6 +91,7 @@ def index_queue_rules(rep, rid):
             raise AnalysisBroken("%s: expected one compare_exchange" % fn.qname)
         b, i, ev = cas[0]
         exp = P(ev["args"][0])
+        RNG = P(ev.get("recv"))          # the atomic range the pops work on (the member's name is free)
         fb = ff.before.get((b, i)) or frozenset()
         if ("%s.empty()" % exp, False) in fb:
             rep.ok(rid, fn, "%s: every compare-exchange is preceded by !%s.empty() since %s was last (re)loaded" % (name, exp, exp))
@@ -144,7 +149,7 @@ def index_queue_rules(rep, rid):
     for f in D.find("^" + CIQ + "::", pattern=False):
         short = f.qname.rsplit("::", 1)[-1]
         for b, i, ev in f.all_events():
-            if ev.get("k") == "call" and ev.get("recv") is not None and P(ev["recv"]).endswith("current_range.data_") and P(ev["recv"]).startswith("this") and callee_short(ev) not in ("load",):
+            if ev.get("k") == "call" and ev.get("recv") is not None and RNG is not None and P(ev["recv"]) == RNG and callee_short(ev) not in ("load",):
                 nmod += 1
                 if callee_short(ev).startswith("compare_exchange") or short in ("reset", "contiguous_index_queue", "operator="):
                     rep.ok(rid, f, "current_range changed by %s in %s" % (callee_short(ev), short))
